@@ -29,4 +29,9 @@ def check(ctx: Ctx) -> str:
     from .c37 import derived_context_rule
 
     derived_context_rule(ctx, "R5")
+    # an overlay with other options (autoescape, sandbox interception) must compile its own
+    # templates: it starts with an empty cache (rule owned by C25)
+    from . import c25
+
+    ctx.run_imported("C25", {"R4"}, c25.check)
     return __doc__ or ""
